@@ -95,8 +95,12 @@ func vpH_C17_assoc() {
 	if vpThorough() {
 		tpl = []int{1, 2, 3, 5, 7, 9}
 	}
+	maxB := 1
+	if vpThorough() {
+		maxB = 2
+	}
 	a := g.batch("A", 1, 1, tpl)
-	b := g.batch("B", 1, 2, tpl)
+	b := g.batch("B", 1, maxB, tpl)
 	c := g.batch("C", 1, 1, tpl)
 	g.done()
 	vpSetLengths(a)
